@@ -16,6 +16,10 @@ CONSTANTS
   Defect = "exists-no-reset"
   AllowBadConfig = FALSE
   Emit = FALSE
+  Faults <- NoFaults
+  QS <- NoQ
+  Ops <- AllOps
+  Big = FALSE
 VIEW MCView
 INVARIANTS AnswersPerKey
 CHECK_DEADLOCK FALSE
